@@ -46,8 +46,14 @@ package snap
 //@ func ensureCorrectWindingOrder
 //@   ensures[C05,C06] len(result) == len(ring)
 //@   ensures[C05,C06] forall(i, 0, len(result), result[i] == ring[i] || result[i] == ring[len(ring) - 1 - i])
+//@ func kmpDeduplicate
+//@   trusted "de-duplication heuristic: appends into a re-sliced ring and uses a sorted-map library, outside the verified subset; only bounded stand-ins (C06)"
+//@   maypanic
+//@ func splitRing
+//@   trusted "ring splitting heuristic over an ordered-map library, outside the verified subset; only bounded stand-ins (C06)"
+//@   maypanic
+// cleanupNewRing itself (closing vertex, size filters, the two calls) is verified: its own indexing is safe
 //@ func cleanupNewRing
-//@   trusted "kmpDeduplicate + splitRing: ring assembly heuristics, only bounded stand-ins (C06)"
 //@   maypanic
 //@ func dedupeInnersOuters
 //@   trusted "ring assembly heuristic, only bounded stand-ins (C06)"
